@@ -23,34 +23,55 @@ theorem chargeSpec_is_ceiling (p b : Nat) :
   · intro r hr
     omega
 
-private theorem ceil_scale (x : Nat) : (x * 10 ^ 9 + (10 ^ 18 - 1)) / 10 ^ 18 = (x + (10 ^ 9 - 1)) / 10 ^ 9 := by
-  omega
+/-- Splitting the price into whole gigabyte units and the rest does not change the rounded-up charge. -/
+theorem chargeSpec_split_price (p b : Nat) :
+    p / 10 ^ 9 * b + (p % 10 ^ 9 * b + 10 ^ 9 - 1) / 10 ^ 9 = chargeSpec p b := by
+  unfold chargeSpec
+  have hp : p = 10 ^ 9 * (p / 10 ^ 9) + p % 10 ^ 9 := (Nat.div_add_mod p (10 ^ 9)).symm
+  have e : p * b + (10 ^ 9 - 1) = 10 ^ 9 * (p / 10 ^ 9 * b) + (p % 10 ^ 9 * b + 10 ^ 9 - 1) := by
+    have h1 : p * b = (10 ^ 9 * (p / 10 ^ 9) + p % 10 ^ 9) * b := by rw [← hp]
+    rw [h1]; ring_nf; omega
+  rw [e, Nat.mul_add_div (by norm_num : 0 < 10 ^ 9)]
 
-/-- `AmountForBytes p b = ⌈p·b/10^9⌉`, without panic, whenever `p·b < 2^255`. -/
+private theorem gigabyte_val : Gigabyte = ((10 ^ 9 : Nat) : Int) := by
+  unfold Gigabyte Megabyte Kilobyte; norm_num
+
+private theorem mod_nat (a b : Nat) (hb : 0 < b) : SInt.mod (a : Int) (b : Int) = .ok ((a % b : Nat) : Int) := by
+  unfold SInt.mod
+  have : ((b : Nat) : Int) ≠ 0 := by omega
+  simp only [this, if_false]
+  rfl
+
+private theorem sub_one_nat (a : Nat) (h1 : 1 ≤ a) (h : a < B256) : SInt.sub (a : Int) 1 = .ok ((a - 1 : Nat) : Int) :=
+  SInt.sub_nat a 1 h1 h
+
+/-- `AmountForBytes p b = ⌈p·b/10^9⌉`, without panic, whenever the charge and the intermediate
+`(p mod 10^9)·b + 10^9` fit in 256 bits.  (After repair F11 the function works on integers; before it
+the 315-bit decimal intermediate made it panic for prices near 2^255, a chain halt at settlement.) -/
+theorem afb_exact_fits (p b : Nat) (h1 : p / 10 ^ 9 * b < B256) (h2 : p % 10 ^ 9 * b + 10 ^ 9 < B256)
+    (h3 : chargeSpec p b < B256) :
+    AmountForBytes (p : Int) (b : Int) = .ok ((chargeSpec p b : Nat) : Int) := by
+  have h4 : p % 10 ^ 9 * b < B256 := Nat.lt_of_le_of_lt (Nat.le_add_right _ _) h2
+  have h5 : 1 ≤ p % 10 ^ 9 * b + 10 ^ 9 := Nat.le_trans (by norm_num) (Nat.le_add_left _ _)
+  have e := chargeSpec_split_price p b
+  have h6 : p / 10 ^ 9 * b + (p % 10 ^ 9 * b + 10 ^ 9 - 1) / 10 ^ 9 < B256 := by rw [e]; exact h3
+  unfold AmountForBytes
+  rw [gigabyte_val, SInt.quo_nat p (10 ^ 9) (by norm_num), ok_bind, SInt.mul_nat _ _ h1, ok_bind,
+    mod_nat p (10 ^ 9) (by norm_num), ok_bind, SInt.mul_nat _ _ h4, ok_bind, SInt.add_nat _ _ h2, ok_bind,
+    sub_one_nat _ h5 h2, ok_bind, SInt.quo_nat _ (10 ^ 9) (by norm_num), ok_bind, SInt.add_nat _ _ h6, e]
+
+/-- The earlier range statement still holds: no panic whenever `p·b < 2^255`. -/
 theorem afb_exact_wide (p b : Nat) (h : p * b < B255) :
     AmountForBytes (p : Int) (b : Int) = .ok ((chargeSpec p b : Nat) : Int) := by
-  have hG : Gigabyte = ((10 ^ 9 : Nat) : Int) := by unfold Gigabyte Megabyte Kilobyte; norm_num
-  have e1 : p * 10 ^ 18 / 10 ^ 9 = p * 10 ^ 9 := by omega
-  have e2 : b * 10 ^ 18 * (p * 10 ^ 9) = (p * b * 10 ^ 9) * 10 ^ 18 := by ring
-  have hq : (p * b * 10 ^ 9 + (10 ^ 18 - 1)) / 10 ^ 18 * 10 ^ 18 / 10 ^ 18 = (p * b * 10 ^ 9 + (10 ^ 18 - 1)) / 10 ^ 18 :=
-    Nat.mul_div_cancel _ (by norm_num)
-  have hsmall : (p * b * 10 ^ 9 + (10 ^ 18 - 1)) / 10 ^ 18 < B256 := by
-    apply Nat.div_lt_of_lt_mul
-    omega
-  have hval : Dec.chopRoundNat (b * 10 ^ 18 * (p * 10 ^ 9)) = p * b * 10 ^ 9 := by
-    rw [e2]; exact Dec.chopRoundNat_mul _
-  have h315 : p * b * 10 ^ 9 < B315 := by omega
-  have h314 : p * b * 10 ^ 9 < B314 := by omega
-  have hlt : Dec.chopRoundNat (b * 10 ^ 18 * (p * 10 ^ 9)) < B315 := by rw [hval]; exact h315
-  have s1 : Dec.quoInt (((p * 10 ^ 18 : Nat)) : Int) ((10 ^ 9 : Nat) : Int) = .ok (((p * 10 ^ 9 : Nat)) : Int) := by
-    rw [Dec.quoInt_nat _ _ (by norm_num), e1]
-  have s2 : Dec.mul (((b * 10 ^ 18 : Nat)) : Int) (((p * 10 ^ 9 : Nat)) : Int) = .ok (((p * b * 10 ^ 9 : Nat)) : Int) := by
-    rw [Dec.mul_nat _ _ hlt, hval]
-  have s3 := Dec.ceil_nat (p * b * 10 ^ 9) h314
-  have s4 := Dec.truncateInt_nat ((p * b * 10 ^ 9 + (10 ^ 18 - 1)) / 10 ^ 18 * 10 ^ 18) (by rw [hq]; exact hsmall)
-  unfold AmountForBytes
-  rw [hG, Dec.ofInt_natCast, Dec.ofInt_natCast, s1, ok_bind, s2, ok_bind, s3, ok_bind, s4, hq, ceil_scale]
-  rfl
+  have hq : p / 10 ^ 9 * b ≤ p * b := Nat.mul_le_mul_right b (Nat.div_le_self p (10 ^ 9))
+  have hr : p % 10 ^ 9 * b ≤ p * b := Nat.mul_le_mul_right b (Nat.mod_le p (10 ^ 9))
+  have hc : chargeSpec p b ≤ p * b + 1 := by unfold chargeSpec; omega
+  exact afb_exact_fits p b (by omega) (by omega) (by omega)
+
+/-- The price of the repaired defect F11: `2^255` per gigabyte, one byte short of a gigabyte — the
+charge is computed (the decimal version panicked here). -/
+example : AmountForBytes 57896044618658097711785492504343953926634992332820282019728792003956564819968 999999999 =
+    .ok 57896044560762053093127394792558461422291038406185289686908509984227772816012 := by decide +kernel
 
 /-- The property's stated domain: all `p, b ≤ 2^127` (then `p·b < 2^255`); beyond it the same
 formula holds as long as the product stays below `2^255`. -/
